@@ -35,6 +35,7 @@ if P:
     K = PART.K
     RX = cfg.text_regexps(GRAMMAR, BNF, as_bytes=BYTES)
     MODE = 'complete' if LEXER == 'dynamic_complete' else 'longest'
+    BLEXER = hs.basic_lexer_of(LARK) if FAMILY == 'basic' else None
     LARK_MODE = 'lark_complete' if LEXER == 'dynamic_complete' else 'lark_dynamic'
 
 
@@ -150,8 +151,8 @@ def _body(rec, cs):
                     return r
             else:
                 rec['count']['meta_skipped_ambiguous_or_lexer_dependent'] = 1
-            if FAMILY == 'basic' and not BYTES:
-                for t in LARK.lex(text):
+            if FAMILY == 'basic':
+                for t in hs.lex_tokens(BLEXER, text):
                     r = _check_token(rec, text, t)
                     if r is not True:
                         return r
